@@ -218,7 +218,7 @@ Proof.
     eapply vstep_trans; [eapply move_vstep; eauto|].
     repeat dmatch H; try (inv H; apply vstep_refl). eapply drop_off_trip_vstep; eauto.
   - eapply move_vstep; eauto.
-  - eapply charge_vstep; eauto.
+  - unfold charge_unless_full in H. repeat dmatch H; try (inv H; apply vstep_refl); eapply charge_vstep; eauto.
   - repeat dmatch H. intros D K. assert (Hid : v_id v = vid) by (apply K; assumption).
     refine (vstep_modv _ _ _ v H _ _ D K).
     + unfold mech_idle. destruct (m_kind m); cbn; rewrite Hid; assumption.
